@@ -280,9 +280,9 @@ class PteraTransformer(NodeTransformer):
     def _set(self, name):
         return ast.Name(id=self.lib[name][0], ctx=ast.Store())
 
-    def _interact(self, *args, fullname=None):
+    def _interact(self, *args, fullname=None, force=False):
         varname, key, ann, value, overridable = args
-        if not self.should_instrument(varname, ann) and not (
+        if not force and not self.should_instrument(varname, ann) and not (
             # A selector may name the attribute itself, e.g. ``self.x``
             fullname is not None
             and self.should_instrument(fullname, ann)
@@ -458,7 +458,11 @@ class PteraTransformer(NodeTransformer):
                 *value_args, fullname=f"{target.value.id}.{target.attr}"
             )
         else:
-            new_value = self._interact(*value_args)
+            # A declaration without a value must always go through interact,
+            # which either gets a value from a handler or raises
+            # PteraNameError: binding the variable to ABSENT would leak the
+            # marker into user code.
+            new_value = self._interact(*value_args, force=value is None)
         if isinstance(target, str):
             assert not expression
             return [ast.Expr(new_value)]
